@@ -22,6 +22,7 @@ pub mod c02;
 pub mod c04;
 pub mod c08;
 pub mod c09;
+pub mod c06;
 pub mod c11;
 pub mod c20;
 pub mod common;
